@@ -1,8 +1,9 @@
-(* C20 — Display and Debug never panic and print "[]" for a matrix without elements.
-   Only statements; the proofs are in Proofs/FmtProofs.v.  The row structure of the output (one bracketed line per
-   logical row, equal widths, storage-order transparency, labels) is decided by the correspondence check and its
-   direct oracles, see DESIGN.md. *)
-From Matreex Require Import Model.Fmt Proofs.FmtProofs.
+(* C20 — Display and Debug never panic, print "[]" for a matrix without elements, and otherwise print a text that is a
+   pure function of the logical grid: rows in order, the lines of each row, the cells of each line in column order
+   (display_text / debug_text in Proofs/FmtSpec.v); Display is therefore identical for equal matrices stored in different
+   orders, and for single-line renderings it is one bracketed line per logical row, all equally wide.
+   Only statements; the proofs are in Proofs/FmtProofs.v and Proofs/FmtSpec.v. *)
+From Matreex Require Import Model.Fmt Proofs.FmtProofs Proofs.FmtSpec.
 
 (* non-vacuity: a coherent 2 x 3 column-major matrix whose renderings have different widths and heights *)
 Example C20_hypotheses_satisfiable :
@@ -29,3 +30,44 @@ Theorem C20_elementless : forall (A : Type) (c : cfg) (render : A -> text) (m : 
   fmt_display_gen c render m = Val [ch_lb; ch_rb] /\ fmt_debug_gen c render m = Val [ch_lb; ch_rb].
 Proof. intros A c render m H. split; [exact (display_elementless c render m H)|exact (debug_elementless c render m H)]. Qed.
 Print Assumptions C20_elementless.
+
+(* what is printed for a matrix with elements: the text is determined by nrows, ncols, the lines of the element at each
+   logical (row, col) and the common element width / height; nothing else of the storage (order, flat positions) enters *)
+Theorem C20_display_spec : forall (A : Type) (c : cfg) (es : Z) (render : A -> text) (m : matrix A),
+  Coh c es m -> is_empty m = false ->
+  fmt_display_gen c render m =
+    Val (display_text (nrows m) (ncols m) (lines_at render m) (max_width (build_cache render m)) (max_height (build_cache render m))).
+Proof. intros A c es render m. exact (display_spec c es render m). Qed.
+Print Assumptions C20_display_spec.
+
+(* Debug prints the same grid; the label in front of each cell is flat m row col, the position of the element in the
+   element store (at_ m row col = znth_opt (flat m row col) (m_data m) by definition), rows and columns are numbered *)
+Theorem C20_debug_spec : forall (A : Type) (c : cfg) (es : Z) (render : A -> text) (m : matrix A),
+  Coh c es m -> is_empty m = false ->
+  fmt_debug_gen c render m =
+    Val (debug_text (nrows m) (ncols m) (lines_at render m) (flat m) (max_width (build_cache render m)) (max_height (build_cache render m))
+           (zlen (dec (size m)))).
+Proof. intros A c es render m. exact (debug_spec c es render m). Qed.
+Print Assumptions C20_debug_spec.
+
+(* equal matrices stored in different orders (same shape, same element at every logical position) print identically *)
+Theorem C20_display_order_transparent : forall (A : Type) (c : cfg) (es : Z) (render : A -> text) (m1 m2 : matrix A),
+  Coh c es m1 -> Coh c es m2 ->
+  nrows m1 = nrows m2 /\ ncols m1 = ncols m2 /\ (forall r cl, 0 <= r < nrows m1 -> 0 <= cl < ncols m1 -> at_ m1 r cl = at_ m2 r cl) ->
+  fmt_display_gen c render m1 = fmt_display_gen c render m2.
+Proof. intros A c es render m1 m2. exact (display_order_transparent c es render m1 m2). Qed.
+Print Assumptions C20_display_order_transparent.
+
+(* single-line renderings: "[", then one line "    [" cells "]" per logical row in row order, the cells being the renderings
+   of that row's elements in column order, each padded to the common width and separated by two spaces, then "]";
+   all row lines have the same number of characters *)
+Theorem C20_display_single_line : forall (A : Type) (c : cfg) (es : Z) (render : A -> text) (m : matrix A),
+  Coh c es m -> is_empty m = false ->
+  (forall r cl, 0 <= r < nrows m -> 0 <= cl < ncols m -> exists x, lines_at render m r cl = [x]) ->
+  let ew := max_width (build_cache render m) in
+  fmt_display_gen c render m =
+    Val ([ch_lb; ch_nl] ++
+         concat (map (fun row => pad_space TAB_SIZE ++ [ch_lb] ++ row_cells_text render m row ew ++ [ch_rb; ch_nl]) (zseq (nrows m))) ++
+         [ch_rb]) /\ forall row, 0 <= row < nrows m -> zlen (row_cells_text render m row ew) = ncols m * ew + INTER_GAP * (ncols m - 1).
+Proof. intros A c es render m. exact (display_single_line c es render m). Qed.
+Print Assumptions C20_display_single_line.
